@@ -218,6 +218,69 @@ def ob_array():
     return verify(body)
 
 
+@obligation("curves/pure_function_of_current_snr", params=[{"mod": m} for m in ("BPSK", "QPSK", "PSK8", "QAM16", "QAM64")], timeout=300,
+            desc="history + frame: the curves are a function of the SNR values passed NOW - the same object asked again after the caller "
+                 "changed its SNR array IN PLACE (and after calls with other values) returns element-wise what a fresh object returns; "
+                 "earlier results keep their values; the caller's array is not modified")
+def ob_pure(mod):
+    def body(c, it):
+        _use_qfunc_contract(it)
+        o, fresh = _mk(it, mod), _mk(it, mod)
+        goals = []
+        s = np.empty(2, dtype=object)
+        a0, a1, b0, b1 = (c.var(n, "real") for n in ("a0", "a1", "b0", "b1"))
+        c.inputs.update(first_snr_dB=[a0, a1], second_snr_dB=[b0, b1])
+        for meth in ("calcTheoreticalSER", "calcTheoreticalBER", "calcTheoreticalSpectralEfficiency"):
+            s[0], s[1] = a0, a1
+            r1 = _call(it, o, meth, s)
+            ok = isinstance(r1, np.ndarray) and r1.shape == (2,)
+            goals.append(Goal("%s first call shape" % meth, ok))
+            if not ok:
+                continue
+            first = [r1[0], r1[1]]
+            goals.append(Goal("%s: caller's array untouched" % meth, s[0] is a0 and s[1] is a1))
+            s[0], s[1] = b0, b1                       # the caller's in-place update (e.g. snr += step)
+            r2 = _call(it, o, meth, s)
+            ok = isinstance(r2, np.ndarray) and r2.shape == (2,)
+            goals.append(Goal("%s second call shape" % meth, ok))
+            if not ok:
+                continue
+            for i, (old, new) in enumerate(((a0, b0), (a1, b1))):
+                goals.append(Goal("%s[%d] after in-place change == fresh object's value for the new SNR" % (meth, i),
+                                  lift(r2[i]) == _call(it, fresh, meth, new)))
+                goals.append(Goal("%s[%d] of the first call == fresh object's value for the old SNR" % (meth, i),
+                                  lift(first[i]) == _call(it, fresh, meth, old)))
+            # scalar after array, and the same scalar twice
+            goals.append(Goal("%s scalar after array" % meth, lift(_call(it, o, meth, a1)) == _call(it, fresh, meth, a1)))
+            goals.append(Goal("%s other scalar" % meth, lift(_call(it, o, meth, b0)) == _call(it, fresh, meth, b0)))
+        return goals
+
+    def replay(mv):
+        try:
+            mk = [f for nm, f, _ in _configs() if nm == mod][0]
+            A = [max(-30.0, min(40.0, float(x))) for x in mv["first_snr_dB"]]
+            B = [max(-30.0, min(40.0, float(x))) for x in mv["second_snr_dB"]]
+            if A == B:
+                B = [A[0] + 3.0, A[1] - 5.0]
+            out = {"first_snr_dB": A, "second_snr_dB (same array, changed in place)": B}
+            bad = False
+            for meth in ("calcTheoreticalSER", "calcTheoreticalBER", "calcTheoreticalSpectralEfficiency"):
+                o = mk()
+                arr = np.array(A)
+                r1 = np.array(getattr(o, meth)(arr), dtype=float).copy()
+                arr[:] = B
+                r2 = np.array(getattr(o, meth)(arr), dtype=float)
+                want1 = np.array(getattr(mk(), meth)(np.array(A)), dtype=float)
+                want2 = np.array(getattr(mk(), meth)(np.array(B)), dtype=float)
+                out[meth] = {"second call": r2.tolist(), "fresh object": want2.tolist()}
+                bad = bad or not np.allclose(r2, want2, rtol=1e-12, atol=0) or not np.allclose(r1, want1, rtol=1e-12, atol=0)
+            out["confirmed"] = bool(bad)
+            return out
+        except Exception as e:
+            return {"confirmed": False, "error": repr(e)}
+    return verify(body, replay=replay)
+
+
 # ------------------------------------------------------------------ bounded / float
 @obligation("float/reference_grid", kind="bounded", timeout=900,
             desc="binary64 behaviour on SNR grid -30..60 dB step 0.5 for all modulators/orders: SER equals the value implied by "
@@ -248,12 +311,12 @@ def ob_float_grid():
         dmin, nn, energy = _measure(o.symbols) if M <= 1024 else (None, None, None)
         if M > 1024:
             return None
-        if abs(energy - 1) > 1e-9:
+        if (not (abs(energy - 1) <= 1e-9)):
             return {"energy": energy}
         grid = np.arange(-30, 60.25, 0.5)
         ser = np.asarray(o.calcTheoreticalSER(grid), dtype=float)
         ber = np.asarray(o.calcTheoreticalBER(grid), dtype=float)
-        if ser.min() < 0 or ser.max() > 1 or ber.min() < 0 or ber.max() > 1:
+        if (not (ser.min() >= 0)) or (not (ser.max() <= 1)) or (not (ber.min() >= 0)) or (not (ber.max() <= 1)):
             return {"range": [float(ser.min()), float(ser.max()), float(ber.min()), float(ber.max())]}
         if np.any(np.diff(ser) > 1e-15) or np.any(np.diff(ber) > 1e-15):
             return {"not monotone": True}
@@ -267,28 +330,28 @@ def ob_float_grid():
                 want = q
             elif case["mod"] == "QAM":
                 p = (nn / 2) * q
-                want = 1 - (1 - p) ** 2 if p > 1e-8 else 2 * p - p * p
+                want = 1 - (1 - p) ** 2 if (not (p <= 1e-8)) else 2 * p - p * p
                 # the code's own 1-(1-Psc)**2 loses the tail below ~1e-16 (documented float note): compare Psc instead
                 got_p = float(o._calcTheoreticalSingleCarrierErrorRate(float(grid[i])))
-                if abs(got_p - p) > 1e-9 * p + 1e-300:
+                if (not (abs(got_p - p) <= 1e-9 * p + 1e-300)):
                     return {"SNR_dB": float(grid[i]), "Psc": got_p, "implied": p}
                 continue
             else:
                 want = 2 * q
-            if abs(ser[i] - want) > 1e-9 * want + 1e-300:
+            if (not (abs(ser[i] - want) <= 1e-9 * want + 1e-300)):
                 return {"SNR_dB": float(grid[i]), "SER": float(ser[i]), "implied_by_constellation": want}
-        if M <= 64 and ser[-1] > 1e-6:
+        if M <= 64 and (not (ser[-1] <= 1e-6)):
             return {"SER at 60 dB": float(ser[-1])}
         for L in (1, 3, 120):
             per = np.asarray(o.calcTheoreticalPER(grid, L), dtype=float)
-            if np.abs(per - (1 - (1 - ber) ** L)).max() > 1e-15 or per.min() < 0 or per.max() > 1:
+            if (not (np.abs(per - (1 - (1 - ber) ** L)).max() <= 1e-15)) or (not (per.min() >= 0)) or (not (per.max() <= 1)):
                 return {"PER identity": L}
             se = np.asarray(o.calcTheoreticalSpectralEfficiency(grid, L), dtype=float)
-            if np.abs(se - k * (1 - per)).max() > 1e-12:
+            if (not (np.abs(se - k * (1 - per)).max() <= 1e-12)):
                 return {"SE identity": L}
         # scalar == array
         for x in (-30.0, 0.0, 7.5, 60.0):
-            if abs(float(o.calcTheoreticalSER(x)) - float(o.calcTheoreticalSER(np.array([x]))[0])) > 1e-15:
+            if (not (abs(float(o.calcTheoreticalSER(x)) - float(o.calcTheoreticalSER(np.array([x]))[0])) <= 1e-15)):
                 return {"scalar vs array": x}
         return None
     return bounded(gen(), check)
@@ -317,7 +380,7 @@ def ob_psk_exact():
         o = f.PSK(case["M"])
         b = float(o.calcTheoreticalSER(case["SNR_dB"]))
         e = exact_ser(case["M"], 10 ** (case["SNR_dB"] / 10))
-        if e < 1e-12:
+        if (not (e >= 1e-12)):
             return None          # quadrature is not trustworthy deeper in the tail
         if not (e * (1 - 1e-6) <= b <= 2 * e * (1 + 1e-6)):
             return {"bound": b, "exact": e}
